@@ -17,6 +17,7 @@ type lvec struct {
 	vec
 	Plain   bool `json:"plain"`
 	NoBytes bool `json:"nobytes"` // the vector carries no octets (only lengths and offsets)
+	Loose   bool `json:"loose"`   // a stored length field disagrees with its data: packable as given, not a decodable message
 	// what the CompressLen machines say the library predicts / emits with Compress = true; binding where Exact
 	Pimpl *int `json:"pimpl"`
 	Limpl *int `json:"limpl"`
@@ -189,12 +190,14 @@ func lenOne(v *lvec, sum *hx.Summary) (c01 bool) {
 	}
 	// the message as a decoder holds it (e.g. nil lists, the typed zero value of an RDATA-less record): Len() of it
 	// never under-estimates what Pack() makes of it either
-	if !v.NoBytes && len(v.Bytes) > 0 {
+	if !v.NoBytes && !v.Loose && len(v.Bytes) > 0 {
 		for _, compress := range []bool{false, true} {
 			u := new(dns.Msg)
-			if u.Unpack(v.Bytes.Bytes()) != nil {
+			in := v.Bytes.Bytes() // a private copy
+			if u.Unpack(in) != nil {
 				break // C01's finding
 			}
+			scribble(in) // the caller re-uses its buffer
 			u.Compress = compress
 			l := u.Len()
 			b, err := u.Pack()
